@@ -584,6 +584,40 @@ func randIdxPages(c *core.Ctx, k *kind, n int) (pages []idxPage) {
 	return pages
 }
 
+// resetSweep: the indexer of every kind after it was used and Reset (once and
+// twice): lists of 1..4 pages whose min and max differ, after histories of
+// shorter, equal and longer lists (the slices an indexer keeps across Reset
+// keep their capacity, so the history decides which appends reallocate).
+func resetSweep(c *core.Ctx) {
+	for _, k := range kinds {
+		d := len(k.Domain)
+		mk := func(n, from int) (pages []idxPage) {
+			for i := 0; i < n; i++ {
+				a := (from + i) % (d - 1)
+				pages = append(pages, idxPage{NV: 3, NN: int64(i % 2), Min: k.tok(k.Domain[a]), Max: k.tok(k.Domain[a+1])})
+			}
+			return
+		}
+		limits := []int{0}
+		if k.Trunc {
+			limits = []int{0, 3}
+		}
+		for _, limit := range limits {
+			for _, h := range []int{1, 2, 4, 9} {
+				for _, n := range []int{1, 2, 4} {
+					for resets := 1; resets <= 2; resets++ {
+						cs := &idxCase{Kind: k.Name, Limit: limit, Pages: mk(n, 0)}
+						for r := 0; r < resets; r++ {
+							cs.Prior = append(cs.Prior, mk(h, 1+r))
+						}
+						idxRun(c, cs, "sweep/indexer-after-reset/"+k.Name)
+					}
+				}
+			}
+		}
+	}
+}
+
 // cmpCheck ties Type.Compare to the model on every pair of the domain.
 func cmpCheck(c *core.Ctx, k *kind) {
 	vals := append(append([]parquet.Value(nil), k.Domain...), k.NaNs...)
@@ -615,6 +649,37 @@ type boundsCase struct {
 	Kind   string   `json:"kind"`
 	Dict   bool     `json:"dict"`
 	Values []string `json:"values"`
+	// noModel: predicates only (the exhaustive pair sweep asks the model about
+	// the kinds whose order has ties; a replay always asks)
+	noModel bool
+}
+
+// searchOwnPage: the comparator and the bounds kernels must use one order. A
+// column index made of the page's own bounds has to lead Search to the page
+// for every value the page holds, values that compare equal to a bound (zeros
+// of the other sign, equal decimals of another length) included.
+func searchOwnPage(k *kind, mn, mx parquet.Value, vals []parquet.Value) (why string) {
+	if k.isNaN(mn) || k.isNaN(mx) {
+		return ""
+	}
+	defer func() {
+		if r := recover(); r != nil {
+			why = fmt.Sprintf("Search panicked: %v", r)
+		}
+	}()
+	ix := k.Typ.NewColumnIndexer(0)
+	ix.IndexPage(int64(len(vals)), 0, mn, mx)
+	ci := ix.ColumnIndex()
+	index := parquet.NewColumnIndex(k.Typ.Kind(), &ci)
+	for _, v := range vals {
+		if v.IsNull() || k.isNaN(v) {
+			continue
+		}
+		if r := parquet.Search(index, v, k.Typ); r != 0 {
+			return fmt.Sprintf("the page holds %s and its bounds are [%s,%s], but Search(%s) in the one-page index of these bounds returns %d", k.show(v), k.show(mn), k.show(mx), k.show(v), r)
+		}
+	}
+	return ""
 }
 
 func pageBounds(k *kind, dict bool, vals []parquet.Value) (mn, mx parquet.Value, ok bool, err string) {
@@ -709,6 +774,15 @@ func boundsCheck(c *core.Ctx, cs *boundsCase) bool {
 		c.Violation(class, fmt.Sprintf("%s page (dict=%v): %s", k.Name, cs.Dict, why), cs)
 		return false
 	}
+	if has {
+		if why := searchOwnPage(k, mn, mx, vals); why != "" {
+			c.Violation("skip-unsafe", fmt.Sprintf("%s page (dict=%v): %s", k.Name, cs.Dict, why), cs)
+			return false
+		}
+	}
+	if cs.noModel {
+		return true
+	}
 	cmd := "c05.bounds "
 	if cs.Dict {
 		cmd = "c05.dictbounds "
@@ -747,6 +821,39 @@ func boundsRun(c *core.Ctx, cs *boundsCase, bucket string) {
 	}
 	key, _ := json.Marshal(cs)
 	c.Case(bucket, string(key), len(cs.Values) >= 2)
+}
+
+// pairSweep: every ordered pair (and every pair framed by a third value) of the
+// domain of every kind, NaNs included, as a page, plain and dictionary indexed:
+// the bounds kernels and Type.Compare agree on the order of the two values
+// (the bounds are values of the page and no value compares outside them), and
+// Search finds the page for both.
+func pairSweep(c *core.Ctx) {
+	for _, k := range kinds {
+		vals := append(append([]parquet.Value(nil), k.Domain...), k.NaNs...)
+		ties := k.Float || k.Model == "decimal"
+		for _, dict := range []bool{false, true} {
+			if dict && !canDict(k) {
+				continue
+			}
+			for i, a := range vals {
+				for j, b := range vals {
+					cs := &boundsCase{Kind: k.Name, Dict: dict, Values: []string{k.tok(a), k.tok(b)}, noModel: !ties}
+					boundsRun(c, cs, "sweep/pairs/"+k.Name)
+					if ties && i != j {
+						// the pair between two copies of a third value: the kernels'
+						// vector and tail paths see the pair at other positions
+						m := vals[(i+j)%len(k.Domain)]
+						cs := &boundsCase{Kind: k.Name, Dict: dict, noModel: true}
+						for _, v := range []parquet.Value{m, a, b, m, a, b, a, m, b, b, a} {
+							cs.Values = append(cs.Values, k.tok(v))
+						}
+						boundsRun(c, cs, "sweep/pairs/"+k.Name)
+					}
+				}
+			}
+		}
+	}
 }
 
 func byteSweep(c *core.Ctx) {
@@ -873,6 +980,14 @@ type fcase struct {
 	// SkipBounds: parquet.SkipPageBounds on column SkipCol (no bounds in the footer for it)
 	SkipBounds bool `json:"skip_page_bounds,omitempty"`
 	SkipCol    int  `json:"skip_col,omitempty"`
+	// Flush: Writer.Flush after every Flush rows (explicit row group ends, on top
+	// of MaxRowsPerRowGroup).
+	Flush int `json:"flush_every,omitempty"`
+	// Reuse: the history of the Writer before the file. 1: it wrote the same rows
+	// (second half first) to another output and was closed; 2: it wrote the first
+	// half of the rows to another output and was abandoned without Close; then
+	// Writer.Reset(output). A reset writer must produce the file a new one does.
+	Reuse int `json:"writer_reuse,omitempty"`
 }
 
 func colName(i int) string { return fmt.Sprintf("c%02d", i) }
@@ -981,21 +1096,59 @@ func (fc *fcase) write() (data []byte, err string) {
 	if e != "" {
 		return nil, "schema: " + e
 	}
-	var buf bytes.Buffer
-	w := parquet.NewWriter(&buf, fc.options(s)...)
+	var buf, scratch bytes.Buffer
 	rows := fc.rows()
 	batch := fc.Batch
 	if batch <= 0 {
 		batch = 7
 	}
-	for i := 0; i < len(rows); i += batch {
-		j := i + batch
-		if j > len(rows) {
-			j = len(rows)
+	writeAll := func(w *parquet.Writer, rows []parquet.Row) string {
+		sinceFlush := 0
+		for i := 0; i < len(rows); {
+			j := i + batch
+			if fc.Flush > 0 && j-i > fc.Flush-sinceFlush {
+				j = i + fc.Flush - sinceFlush
+			}
+			if j > len(rows) {
+				j = len(rows)
+			}
+			if _, e := w.WriteRows(rows[i:j]); e != nil {
+				return "WriteRows: " + e.Error()
+			}
+			sinceFlush += j - i
+			i = j
+			if fc.Flush > 0 && sinceFlush >= fc.Flush && i < len(rows) {
+				if e := w.Flush(); e != nil {
+					return "Flush: " + e.Error()
+				}
+				sinceFlush = 0
+			}
 		}
-		if _, e := w.WriteRows(rows[i:j]); e != nil {
-			return nil, "WriteRows: " + e.Error()
+		return ""
+	}
+	var w *parquet.Writer
+	switch fc.Reuse {
+	case 0:
+		w = parquet.NewWriter(&buf, fc.options(s)...)
+	case 1:
+		w = parquet.NewWriter(&scratch, fc.options(s)...)
+		h := len(rows) / 2
+		if e := writeAll(w, append(append([]parquet.Row(nil), rows[h:]...), rows[:h]...)); e != "" {
+			return nil, "earlier file: " + e
 		}
+		if e := w.Close(); e != nil {
+			return nil, "earlier file: Close: " + e.Error()
+		}
+		w.Reset(&buf)
+	default:
+		w = parquet.NewWriter(&scratch, fc.options(s)...)
+		if e := writeAll(w, rows[:len(rows)/2]); e != "" {
+			return nil, "earlier file: " + e
+		}
+		w.Reset(&buf)
+	}
+	if e := writeAll(w, rows); e != "" {
+		return nil, e
 	}
 	if e := w.Close(); e != nil {
 		return nil, "Close: " + e.Error()
@@ -1532,6 +1685,11 @@ func checkFile(c *core.Ctx, fc *fcase, data []byte, label string) bool {
 			if nullPages > 0 {
 				bucket += "/nullpages"
 			}
+			if rgi > 0 || fc.Reuse > 0 {
+				// the column writer and its indexer were used and reset before
+				bucket += "/after-reset"
+				key += fmt.Sprintf("|rg%d|reuse%d", rgi, fc.Reuse)
+			}
 			c.Case(bucket, key, np >= 2)
 		}
 	}
@@ -1647,6 +1805,28 @@ func fileShrink(c *core.Ctx, fc *fcase) *fcase {
 			cur = t
 		}
 	}
+	// the history: keep only what the failure needs
+	if cur.Reuse != 0 {
+		t := cur
+		t.Reuse = 0
+		if fails(&t) {
+			cur = t
+		}
+	}
+	if cur.Flush != 0 {
+		t := cur
+		t.Flush = 0
+		if fails(&t) {
+			cur = t
+		}
+	}
+	if cur.MaxRows != 0 {
+		t := cur
+		t.MaxRows = 0
+		if fails(&t) {
+			cur = t
+		}
+	}
 	return &cur
 }
 
@@ -1735,6 +1915,12 @@ func randFileCase(c *core.Ctx, i int) *fcase {
 	if c.Rng.Intn(3) == 0 {
 		fc.MaxRows = int64(10 + c.Rng.Intn(n))
 	}
+	if c.Rng.Intn(4) == 0 {
+		fc.Flush = 5 + c.Rng.Intn(n)
+	}
+	if c.Rng.Intn(4) == 0 {
+		fc.Reuse = 1 + c.Rng.Intn(2)
+	}
 	fc.NoStats = c.Rng.Intn(12) == 0
 	fc.SkipBounds = c.Rng.Intn(15) == 0
 	fc.Copy = c.Rng.Intn(3) == 0
@@ -1756,6 +1942,42 @@ func randFileCase(c *core.Ctx, i int) *fcase {
 		fc.SkipCol = c.Rng.Intn(len(fc.Cols))
 	}
 	return fc
+}
+
+// historySweep: for every kind (plain and dictionary encoded, required and
+// optional) files of several row groups cut by MaxRowsPerRowGroup and by Flush,
+// from a new writer and from writers that were reset after a complete and after
+// an abandoned file: the statistics and the column index of later row groups
+// come from column writers, indexers and buffers that were used before.
+func historySweep(c *core.Ctx) {
+	i := 0
+	for round := c.N(1, 4); round > 0; round-- {
+		for _, k := range kinds {
+			for _, dict := range []bool{false, true} {
+				if dict && !canDict(k) {
+					continue
+				}
+				for mode := 0; mode < 3; mode++ {
+					n := 60 + c.Rng.Intn(60)
+					fc := &fcase{PageBuf: []int{16, 32, 64}[c.Rng.Intn(3)], Limit: []int{16, 3, 0}[i%3], V2: i%2 == 0, Batch: 1 + c.Rng.Intn(12), Reuse: mode}
+					switch mode {
+					case 0:
+						fc.MaxRows = int64(n/4 + c.Rng.Intn(5))
+					case 1:
+						fc.Flush = n/3 + c.Rng.Intn(5)
+					default:
+						if i%2 == 0 {
+							fc.MaxRows = int64(n/3 + c.Rng.Intn(5))
+						}
+					}
+					rep := []string{"req", "opt"}[i%2]
+					fc.Cols = []fcol{{Kind: k.Name, Rep: rep, Dict: dict, Rows: genColumn(c, k, rep, n)}}
+					fileRun(c, fc)
+					i++
+				}
+			}
+		}
+	}
 }
 
 // ---------------------------------------------------------------- run
@@ -1907,12 +2129,17 @@ func runC05(c *core.Ctx) {
 	c.Res.Exhaustive = true
 	c.Note("exhaustive: indexers of int32, byte array (limits 1, 2), flba5 (limit 2), uuid, float over page lists of <= %d pages from a 3-value domain with null pages; all byte strings over {00,01,fe,ff} up to length %d at limits 1..4", c.N(3, 4), c.N(4, 5))
 
+	resetSweep(c)
 	// random indexer cases
 	nIdx := c.N(12000, 80000)
 	for i := 0; i < nIdx; i++ {
 		k := kinds[i%len(kinds)]
 		cs := randIdxCase(c, k)
-		idxRun(c, cs, "random/indexer/"+k.Model)
+		bucket := "random/indexer/" + k.Model
+		if len(cs.Prior) > 0 {
+			bucket += "/after-reset"
+		}
+		idxRun(c, cs, bucket)
 		if i%37 == 0 {
 			addVmIdx(cs)
 		}
@@ -1925,6 +2152,7 @@ func runC05(c *core.Ctx) {
 	// bytes of the values; a wrong permutation entry only shows when every
 	// other byte ties)
 	byteSweep(c)
+	pairSweep(c)
 	largeBounds(c)
 	// page and dictionary bounds
 	nB := c.N(8000, 50000)
@@ -1941,6 +2169,7 @@ func runC05(c *core.Ctx) {
 	// files
 	nFiles := c.N(450, 3000)
 	copiedChunks := parquet.VerifCopyPathCount()
+	historySweep(c)
 	for i := 0; i < nFiles; i++ {
 		fc := randFileCase(c, i)
 		fileRun(c, fc)
